@@ -97,7 +97,9 @@ Failing(s) == s.out.kind # "ok"
 \* "badsend": the codec refuses to marshal the next response message: internal, before any byte of it is written
 \* keys of the protocol itself in an error's metadata (a proxying handler passing on an error it received) are the
 \* protocol's to set: the response still carries exactly one status -- the error's own
-ReservedKeys == {"Grpc-Status", "Grpc-Message", "Grpc-Status-Details-Bin"}
+\* ... and so are the keys that describe the HTTP body of the response that carried the error (an error received from
+\* another server comes with them): the body of THIS response is the library's, whatever the metadata says
+ReservedKeys == {"Grpc-Status", "Grpc-Message", "Grpc-Status-Details-Bin", "Content-Length", "Content-Encoding", "Content-Type"}
 UserMeta(m) == SelectSeq(m, LAMBDA h : h.k \notin ReservedKeys)
 ErrOf(s) == IF s.out.kind = "badsend" THEN [code |-> 13, msg |-> "library", ndet |-> 0, meta |-> <<>>]
             ELSE IF s.out.kind = "plain" THEN [code |-> 2, msg |-> s.out.msg, ndet |-> 0, meta |-> <<>>]
